@@ -106,6 +106,19 @@ theorem count_update (n a : ℕ) (P Q : ℕ → Prop) [DecidablePred P] [Decidab
   · intro hna
     exact absurd (mem_range.mpr ha) hna
 
+/-- step: counting over `n + 1` indices adds the indicator of the last one (predicates agreeing below `n`) -/
+theorem count_succ (n : ℕ) (P Q : ℕ → Prop) [DecidablePred P] [DecidablePred Q]
+    (h : ∀ i, i < n → (P i ↔ Q i)) :
+    ((range (n + 1)).filter Q).card = ((range n).filter P).card + (if Q n then 1 else 0) := by
+  have hcongr : (range n).filter Q = (range n).filter P := by
+    apply Finset.filter_congr
+    intro i hi
+    exact (h i (mem_range.mp hi)).symm
+  rw [Finset.range_add_one, Finset.filter_insert]
+  by_cases hq : Q n
+  · simp [hq, hcongr]
+  · simp [hq, hcongr]
+
 /-! ### set cardinalities (intervention_targets) -/
 
 theorem card_sdiff_of_subset (R S : Finset ℕ) (h : S ⊆ R) : (R \ S).card = R.card - S.card :=
